@@ -91,7 +91,7 @@ func (tt *TypeTable) SortOf(t types.Type) (Sort, error) {
 	if s, ok := tt.isOpaque(t); ok {
 		return s, nil
 	}
-	if tp, ok := t.(*types.TypeParam); ok {
+	if tp, ok := types.Unalias(t).(*types.TypeParam); ok {
 		s := Sort("TP!" + sanitize(tp.Obj().Name()))
 		tt.opaqueS[string(s)] = true
 		return s, nil
@@ -202,6 +202,9 @@ func (tt *TypeTable) isAggregate(t types.Type) bool {
 	if _, ok := tt.isOpaque(t); ok {
 		return false
 	}
+	if _, ok := types.Unalias(t).(*types.TypeParam); ok {
+		return false
+	}
 	switch t.Underlying().(type) {
 	case *types.Struct, *types.Array:
 		return true
@@ -214,6 +217,9 @@ func (tt *TypeTable) isAggregate(t types.Type) bool {
 // from that of its first element.
 func (tt *TypeTable) Slots(t types.Type) int64 {
 	if _, ok := tt.isOpaque(t); ok {
+		return 1
+	}
+	if _, ok := types.Unalias(t).(*types.TypeParam); ok {
 		return 1
 	}
 	switch u := t.Underlying().(type) {
